@@ -26,7 +26,7 @@ TRUSTED = ["oracle: field-by-field comparison in Python (harness/props/C01.py:or
            "CPython's json module (json.dumps / json.loads) is trusted as a component and compared on every case with its Lean model: "
            "the written JSON text byte for byte with Json.render (op emitjson), the reader with Json.parse + tgOfJson on praatio-written, "
            "independently written, damaged and handwritten documents (ops parsejson, u_jsonstr, u_jsonnum, u_jsondoc)"]
-ASSUMPTIONS = ["labels and names contain no carriage return; names non-empty, single-line, trimmed",
+ASSUMPTIONS = ["labels and names contain no carriage return; names non-empty, single-line",
                "intervals and gaps are at least 1e-6 long (sliver absorption is C04's subject)"]
 
 def numword_ok(w):
@@ -256,6 +256,11 @@ def corpus():
         for blanks in (True, False):
             yield {"op": "roundtrip", "tg": g7, "fmt": fmt, "blanks": blanks, "iei": True}
             yield {"op": "roundtrip", "tg": g8, "fmt": fmt, "blanks": blanks, "iei": blanks}
+    # A31 (fixed): a tier name with surrounding blanks / tabs - the short-format reader stripped it
+    g9 = {"lo": 0.0, "hi": 2.0, "tiers": [{"k": "I", "name": " a b ", "es": [[0.0, 1.0, "x"]], "lo": 0.0, "hi": 2.0},
+                                        {"k": "P", "name": "\tq ", "es": [[0.5, "m"]], "lo": 0.0, "hi": 2.0}]}
+    for fmt in ioops.FORMATS:
+        yield {"op": "roundtrip", "tg": g9, "fmt": fmt, "blanks": True, "iei": True}
     yield from json_corpus()
 
 
